@@ -28,6 +28,7 @@ def phys(ip: DimInterp):
 
 def check(ctx):
     repo = ctx.repo
+    ctx.rule("R08.7", "the scales the solver reads from the device (K0, A0, Bc2 ...) are recomputed on every access, never memoised", 6)
     ctx.rule("R08.6", "a function that takes a unit parameter hands it on to every callee that takes the same parameter (no silent fall-back to the callee's default unit)", 5)
     ctx.rule("R08.1", "every .to(unit) converts between equal dimensions; every bare scale the solver uses equals its "
                       "physical definition as an exact term in the unit sizes kL, kB, kI", 8)
@@ -35,6 +36,9 @@ def check(ctx):
     ctx.rule("R08.2", "documented constants: Bc2 = Phi0/(2 pi xi^2), A0 = xi Bc2, K0 = 4 xi Bc2/(mu0 Lambda), Lambda = lambda^2/d", 4)
     ctx.rule("R08.3", "sum of link exponents around a triangle in a uniform field == 2 pi B Area / Phi0", 1)
     ctx.rule("R08.4", "unit strings are never compared with literals in library code (no unit system is special-cased)", 1)
+    if ctx.prop == "C08":
+        from .c13 import scales_not_memoised
+        scales_not_memoised(ctx, "R08.7")
     try:
         T, ip, dev, me, fr, fi = solver_scales(repo)
     except DimMismatch as e:
